@@ -273,6 +273,51 @@ fn deep_nesting() -> Vec<(String, String)> {
     v
 }
 
+/// combinations of nesting constructs and operator chains: `levels` nestings, each carrying a chain of `chain` operators,
+/// cycling through the given constructs. The syntax tree can be much deeper than any single construct nests.
+fn deep_combinations() -> Vec<(String, String)> {
+    // (name, text before the nested part, text after it); `CHAIN` is replaced by ` + 1` repeated
+    let constructs: [(&str, &str, &str); 14] = [
+        ("paren-right", "0 + (", "CHAIN)"),
+        ("paren-left", "(", ")CHAIN"),
+        ("call-arg", "f(0, ", "CHAIN)"),
+        ("call-arg-first", "f(", "CHAIN, 0)"),
+        ("index", "a[", "CHAIN]"),
+        ("array", "[0, ", "CHAIN]"),
+        ("prefix-minus", "-(", "CHAIN)"),
+        ("prefix-not", "!(", "CHAIN)"),
+        ("if-condition", "als ", "CHAIN { 1 }"),
+        ("if-branch", "als ja { ", "CHAIN }"),
+        ("else-branch", "als nee { 1 } anders { ", "CHAIN }"),
+        ("function-body", "functie() { ", "CHAIN }"),
+        ("loop-condition", "zolang ", "CHAIN { }"),
+        ("assignment", "x = ", "CHAIN"),
+    ];
+    let mut v = Vec::new();
+    let sizes: [(usize, usize); 8] = [(90, 900), (150, 5), (195, 1), (30, 990), (190, 900), (10, 1500), (60, 60), (8, 5000)];
+    let mut cycles: Vec<Vec<usize>> = (0..constructs.len()).map(|i| vec![i]).collect();
+    for (i, j) in [(0, 1), (0, 2), (1, 4), (2, 5), (3, 0), (4, 6), (5, 9), (6, 0), (8, 0), (9, 1), (10, 2), (11, 0), (12, 1), (13, 0), (0, 11), (2, 8)] {
+        cycles.push(vec![i, j]);
+    }
+    for cyc in &cycles {
+        for (levels, chain) in sizes {
+            let chain_text = " + 1".repeat(chain);
+            let mut pre = String::new();
+            let mut post: Vec<String> = Vec::new();
+            for l in 0..levels {
+                let (_, a, b) = constructs[cyc[l % cyc.len()]];
+                pre.push_str(a);
+                post.push(b.replace("CHAIN", &chain_text));
+            }
+            post.reverse();
+            let text = format!("{pre}1{}", post.concat());
+            let name = format!("combo:{}:{levels}x{chain}", cyc.iter().map(|i| constructs[*i].0).collect::<Vec<_>>().join("+"));
+            v.push((name, text));
+        }
+    }
+    v
+}
+
 const NOISE: [&str; 24] = ["\u{0}", "\u{7f}", "\u{80}", "\u{feff}", "\u{200b}", "\u{2028}", "\u{e000}", "\u{10ffff}", "\\", "\"", "'", "`", "$", "€", "é", "𝄞", "٣", "\r", "\u{b}", "/*", "*/", "#", "0x", "1e9"];
 
 fn gen_input(tape: &[u8], corpus: &[String], profiles: &[Profile]) -> (String, &'static str) {
@@ -359,7 +404,7 @@ pub fn run_check(ctx: &Ctx) -> Report {
         "inputs: random token sequences (<=200 tokens) over the whole vocabulary; 1-4 token edits of well-formed programs (generated, examples/*.nl, every program string of the test suite and README); \
          truncation of the corpus programs at EVERY byte offset (complete) and of generated programs at random offsets; random Unicode / byte noise; a directed corpus of boundary programs (huge and boundary literals, zero divisors, \
          wrong-arity calls, misplaced antwoord/stop/volgende, self-referential initialisers, non-ASCII indexing, comparisons of arrays/functions, cyclic arrays in every builtin, unterminated constructs, lone operators, every prefix of every keyword, \
-         256 arguments, >65 535 constants / locals / code bytes, unbounded recursion) and deep nesting (100 ... 100 000 levels, evaluated on a thread with the platform's default 8 MB stack). \
+         256 arguments, >65 535 constants / locals / code bytes, unbounded recursion) and deep nesting (100 ... 100 000 levels of one construct, and combinations of 14 nesting constructs with operator chains whose syntax tree is far deeper than any single nesting; evaluated on a thread with the platform's default 8 MB stack). \
          oracle: nederlang::eval returns a value or one of the five error kinds (or is stopped by the instruction budget); a panic, a hook event, a dead process or a front end that does not terminate is a violation. \
          non-trivial = input with >=3 tokens that is not a verbatim corpus member; distinct by text",
     );
@@ -379,7 +424,9 @@ pub fn run_check(ctx: &Ctx) -> Report {
     }
     rep.sample(json!({"directed": "functie f() { 1 } f(1, 2)"}));
     // deep nesting on a thread with the default stack size
-    for (family, text) in deep_nesting() {
+    let mut deep = deep_nesting();
+    deep.extend(deep_combinations());
+    for (family, text) in deep {
         rep.eval();
         rep.count("directed:deep-nesting");
         let tx = text.clone();
